@@ -85,7 +85,7 @@ static void fill_vec(dvector *d, size_t n, Prng &r, double scale) { DVectorResiz
 static void fill_mat(matrix *m, size_t a, size_t b, Prng &r, double scale) { ResizeMatrix(m, a, b); for (size_t i = 0; i < a; i++) for (size_t j = 0; j < b; j++) m->data[i][j] = r.normal() * scale; }
 static double any_scale(Prng &r) { return pow(10.0, (double)r.range(-9, 9)); }
 static void synth_model(Model &m, Prng &r) {
-  size_t n = (size_t)r.range(2, 7), p = (size_t)r.range(1, 4), k = (size_t)r.range(1, 3);
+  size_t n = (size_t)r.range(1, 7), p = (size_t)r.range(1, 4), k = (size_t)r.range(1, 3);
   if (m.kind == KIND_PCA) {
     fill_vec(m.pca->colaverage, p, r, any_scale(r)); if (r.chance(0.6)) fill_vec(m.pca->colscaling, p, r, any_scale(r));
     fill_vec(m.pca->varexp, k, r, 10); fill_mat(m.pca->scores, n, k, r, any_scale(r)); fill_mat(m.pca->loadings, p, k, r, 1);
@@ -110,6 +110,8 @@ static void synth_model(Model &m, Prng &r) {
     if (r.chance(0.4)) { fill_mat(m.pls->predicted_y, n, ny * k, r, any_scale(r)); fill_mat(m.pls->pred_residuals, n, ny * k, r, 1); fill_mat(m.pls->q2y, k, ny, r, 1); fill_mat(m.pls->sdep, k, ny, r, 1); fill_mat(m.pls->bias, k, ny, r, 1); }
     if (r.chance(0.3)) { AddTensorMatrix(m.pls->roc_recalculated, 3, 2); m.pls->roc_recalculated->m[0]->data[1][1] = r.unit(); fill_mat(m.pls->roc_auc_recalculated, k, ny, r, 1); }
     if (r.chance(0.3)) fill_mat(m.pls->yscrambling, 3, 3 * ny, r, 1);
+    if (r.chance(0.15)) ResizeMatrix(m.pls->r2y_validation, 0, (size_t)r.range(1, 3));   // a field with columns but no rows: 0 x c must read back as 0 x c
+    if (r.chance(0.15)) ResizeMatrix(m.pls->roc_auc_validation, (size_t)r.range(1, 3), 0);
   }
 }
 
